@@ -148,9 +148,30 @@ pub fn gen_rtcp_packet(rng: &mut Rng) -> RtcpPacket {
             feedback_packet_count: rng.next() as u8, payload: { let n = 4 * rng.range(0, 5) as usize; rng.bytes(n) } }),
     }
 }
+/// oracle-only stream `rtcpmarshal`: the marshal side of RTCP on structured packets (incl. text that is not ASCII and longer
+/// than the one-byte length field): total, output bounded by the packet, and what it writes parses again. Input = generator seed.
+fn run_rtcpmarshal(run: &mut Run, seed: u64, nt: bool) {
+    let mut r = Rng::new(seed);
+    let ps: Vec<RtcpPacket> = (0..r.range(1, 4)).map(|_| gen_rtcp_packet(&mut r)).collect();
+    let size: usize = ps.iter().map(|p| match p {
+        RtcpPacket::SourceDescription(s) => 64 + s.chunks.iter().map(|c| 8 + c.items.iter().map(|i| 2 + i.text.len()).sum::<usize>()).sum::<usize>(),
+        RtcpPacket::Goodbye(b) => 64 + b.reason.as_ref().map(|t| t.len()).unwrap_or(0),
+        _ => 256 }).sum();
+    let last = super::exec(run, "rtcpmarshal", &seed.to_string(), "rtp::marshal_rtcp_packets", nt, Some((8, 1024, size as u64)), move || {
+        match marshal_rtcp_packets(&ps) {
+            Ok(v) => match parse_rtcp_packets(&v, None) { Ok(q) if q.len() == ps.len() => "noncompared".into(), Ok(q) => format!("roundtrip-count {} {}", ps.len(), q.len()),
+                Err(e) => format!("roundtrip-{}", err_text(&e)) },
+            Err(_) => "noncompared".into(),
+        }
+    });
+    if last.starts_with("roundtrip") { run.fail("roundtrip:rtp::marshal_rtcp_packets", &format!("rtcpmarshal {seed}"), &last); }
+}
+
 fn valid_rtcp(rng: &mut Rng) -> Vec<u8> {
     let ps: Vec<RtcpPacket> = (0..rng.range(1, 4)).map(|_| gen_rtcp_packet(rng)).collect();
-    let mut v = match marshal_rtcp_packets(&ps) { Ok(v) => v, Err(_) => marshal_rtcp_packets(&[RtcpPacket::PictureLossIndication(PictureLossIndication { sender_ssrc: 1, media_ssrc: 2 })]).unwrap() };
+    let ps2 = ps.clone();
+    // a panic here is reported by the `rtcpmarshal` stream; the generator itself must survive it
+    let mut v = match crate::catch(move || marshal_rtcp_packets(&ps2).ok()).unwrap_or(None) { Some(v) => v, None => marshal_rtcp_packets(&[RtcpPacket::PictureLossIndication(PictureLossIndication { sender_ssrc: 1, media_ssrc: 2 })]).unwrap() };
     if rng.chance(1, 5) && !v.is_empty() {
         // RTCP padding on the last packet: set P bit, append pad words
         let mut off = 0; let mut last = 0;
@@ -261,6 +282,7 @@ pub fn special(run: &mut Run, rng: &mut Rng, thorough: bool) {
             for m in rtcp_reframed(&v) { super::run_bytes(run, t, &m, true); }
         }
     }
+    for _ in 0..(if thorough { 60_000 } else { 2_000 }) { let seed = rng.next(); run_rtcpmarshal(run, seed, true); }
     let profiles = [0xBEDEu16, 0x1000, 0x1005, 0x100F, 0x1010, 0x0FFF, 0x1234];
     // exhaustive: every block of length ≤ 1 (≤ 2 thorough) × every id × both profiles
     let mut small: Vec<Vec<u8>> = vec![vec![]];
@@ -299,6 +321,7 @@ pub fn special(run: &mut Run, rng: &mut Rng, thorough: bool) {
 pub fn replay_special(run: &mut Run, stream: &str, a: &[&str]) -> bool {
     let p = |s: &str| s.parse::<u64>().unwrap_or(0);
     match (stream, a.len()) {
+        ("rtcpmarshal", 1) => run_rtcpmarshal(run, p(a[0]), true),
         ("getext", 4) => run_getext(run, p(a[0]) as u8, a[1] == "1", p(a[2]) as u16, &unhex(a[3]), true),
         ("setext", 5) => run_setext(run, p(a[0]) as u8, &unhex(a[1]), a[2] == "1", p(a[3]) as u16, &unhex(a[4]), true),
         ("marshal", 6) => run_marshal(run, p(a[0]) as u8, p(a[1]) as usize, a[2] == "1", p(a[3]) as usize, p(a[4]) as usize, p(a[5]) as u8, true),
